@@ -28,7 +28,7 @@ PROFILE = dict(
     x0_pats=[("in", 3), ("lb", 3), ("ub", 3), ("below", 2), ("above", 2)],
     obj_kinds=[("quad", 5), ("lin", 3), ("abs", 1), ("rosen", 1), ("noisy", 1), ("const", 1), ("none", 1)],
     max_lin=2, max_nl=2, nl_forms=[("NC", 6), ("dict", 1)], faults=15, maxfev=(1, 80), scale_prob=40,
-    callback_prob=35, opt_prob=30, infeasible_prob=30,
+    callback_prob=35, opt_prob=30, infeasible_prob=30, target_prob=20, mutate_prob=8,
 )
 
 
